@@ -102,7 +102,7 @@ pub const C01: CheckDef = CheckDef {
     id: "C01",
     worker: |ctx| {
         pin_geometry(ctx)?;
-        play_worker(ctx, Mode::C01, cases(ctx.tier, 150_000, 3_000_000))
+        play_worker(ctx, Mode::C01, cases(ctx.tier, 250_000, 3_000_000))
     },
     replay: |v| play_replay(Mode::C01, v),
     rule: "case = (root, clocks, playout choices); every visited position compares legals() as a sorted set with the reference (plus len/is_empty, is_legal on all legal moves, near-miss and generated illegal triples, periodically all 20480 triples); plus a directed EXHAUSTIVE family of all pin geometries (king square x 8 directions x distance pairs x 5 pinned types x 2 pinner types, both colours). evaluations = positions compared. Non-trivial = position with the mover in check, a pinned piece, an en-passant marker with a capturer beside it, a castling right with an empty path, or a promotion available; distinct by (placement, turn, rights, marker).",
@@ -129,7 +129,7 @@ pub const C02: CheckDef = CheckDef {
 
 pub const C03: CheckDef = CheckDef {
     id: "C03",
-    worker: |ctx| play_worker(ctx, Mode::C03, cases(ctx.tier, 150_000, 3_000_000)),
+    worker: |ctx| play_worker(ctx, Mode::C03, cases(ctx.tier, 250_000, 3_000_000)),
     replay: |v| play_replay(Mode::C03, v),
     rule: "after every ply: in_check()/state() vs reference; the moved board vs the same position parsed from the reference FEN (and built with the builder when no right is held): legal-move sets, check, state, zobrist, std hash, text, {:?} and {:#?}. evaluations = positions compared. Non-trivial = last move gave check (classified direct/discovered/castling/promotion/en-passant/double), a pin exists, or the position is mate/stalemate/clock-draw; distinct by (position key, last move).",
     assumptions: ASSUME_PLAY,
@@ -144,8 +144,8 @@ pub const C05: CheckDef = CheckDef {
     id: "C05",
     worker: |ctx| {
         crate::c05_extra::directed(ctx)?;
-        run_proptest(ctx, 55, ctx.share(cases(ctx.tier, 150_000, 3_000_000) / 2), crate::c05_extra::builder_strategy(), |c| serde_json::json!({"builder": c}), crate::c05_extra::builder_case)?;
-        play_worker(ctx, Mode::C05, cases(ctx.tier, 150_000, 3_000_000))
+        run_proptest(ctx, 55, ctx.share(cases(ctx.tier, 250_000, 3_000_000) / 2), crate::c05_extra::builder_strategy(), |c| serde_json::json!({"builder": c}), crate::c05_extra::builder_case)?;
+        play_worker(ctx, Mode::C05, cases(ctx.tier, 250_000, 3_000_000))
     },
     replay: |v| {
         if v.get("directed").is_some() {
